@@ -1,6 +1,6 @@
 mod common;
 mod rng;
-mod fam_c42;
+mod fams;
 
 fn main() {
     let args: Vec<String> = std::env::args().collect();
@@ -18,8 +18,5 @@ fn main() {
     }
     // panics are reported per case through catch_unwind; keep stderr quiet
     std::panic::set_hook(Box::new(|_| {}));
-    match args[1].as_str() {
-        "C42" => fam_c42::main(&o),
-        f => { eprintln!("unknown family {f}"); std::process::exit(2); }
-    }
+    if !fams::dispatch(args[1].as_str(), &o) { eprintln!("unknown family {}", args[1]); std::process::exit(2); }
 }
